@@ -14,6 +14,12 @@ _LEVEL = ('Static necessary-condition checking: each rule is exact on its struct
           'claimed are those whose truth is visible in the shape of the code.')
 
 RULEDOC = {
+ 'SA-COORD.ce_tracked': 'the parser registers every Rock Ridge continuation area it reads with the allocator; the guard in front of the registration fails only for the dot record of the root (truth table over the atoms of the guard)',
+ 'SA-COORD.rr_moved_holder': 'the record remembered as relocation directory when an image is parsed is the directory that holds relocated entries, never the entry whose RE mark was tested',
+ 'SA-COORD.last_mark': 'where a function appends to a list and re-marks an existing element as no longer last, the element re-marked is L[-1]',
+ 'SA-MIRROR.loopvar': 'the target of a for loop without break is not read after the loop (a per-member statement that slipped out of its loop acts on the last member only; a loop target that shadows a flag of the function overwrites it)',
+ 'SA-EXC.slot_init': 'every slot that all new*() builders of a record class assign is also assigned by __init__ or by parse() (a parsed object otherwise lacks it and the first read raises AttributeError)',
+ 'SA-LINKS.every': 'a loop that calls a setter on the records of an inode (linked_records) reaches every record: a record is skipped only on its type, never on a flag, a position or a set of things already seen',
  'SA-DEFAULT.resolve': 'the value of a parameter with default None is used only after the statement that replaces None by the documented default (asking whether it was given is allowed before)',
  'SA-STR.ext': 'the mangler keeps every extension length the acceptance predicate admits at the level (3 at level 1, up to the combined 30 at levels 2 and 3)',
  'SA-COORD.seekwrite': 'a record() written after a seek to X.extent_location() is the record of X (or of a part of X)',
